@@ -503,3 +503,101 @@ func mustJSON(v any) json.RawMessage {
 func TestC19CLI(t *testing.T) {
 	runProp(t, "C19", "race-binary", func(t *rapid.T) C19Case { return drawC19(t, true) }, checkC19CLI)
 }
+
+// ---- registries under concurrent use: one object per name, whatever the interleaving.
+
+type C19RegCase struct {
+	Names      []string `json:"names"`
+	Goroutines int      `json:"goroutines"`
+	Rounds     int      `json:"rounds"`
+	Accounts   bool     `json:"accounts"`
+}
+
+func init() { Register("C19", "registry", checkC19Registry) }
+
+func checkC19Registry(c C19RegCase) (o Outcome) {
+	o.Labels = []string{fmt.Sprintf("registry:accounts=%v", c.Accounts), fmt.Sprintf("goroutines:%d", c.Goroutines)}
+	o.NonTrivial = len(c.Names) >= 2 && c.Goroutines >= 2
+	for round := 0; round < c.Rounds; round++ {
+		reg := registry.New()
+		results := make([][]any, c.Goroutines)
+		start := make(chan struct{})
+		done := make(chan int, c.Goroutines)
+		var perr any
+		for g := 0; g < c.Goroutines; g++ {
+			go func(g int) {
+				defer func() {
+					if p := recover(); p != nil {
+						perr = p
+					}
+					done <- g
+				}()
+				<-start
+				res := make([]any, len(c.Names))
+				for k := range c.Names {
+					// each goroutine walks the names from a different starting point
+					i := (k + g*len(c.Names)/c.Goroutines) % len(c.Names)
+					if c.Accounts {
+						a, err := reg.Accounts().Get(c.Names[i])
+						if err != nil {
+							panic(err)
+						}
+						res[i] = a
+					} else {
+						cm, err := reg.Commodities().Get(c.Names[i])
+						if err != nil {
+							panic(err)
+						}
+						res[i] = cm
+					}
+				}
+				results[g] = res
+			}(g)
+		}
+		close(start)
+		for g := 0; g < c.Goroutines; g++ {
+			select {
+			case <-done:
+			case <-time.After(60 * time.Second):
+				abandon("C19", "registry", c, V("hang", "registry lookups did not finish within 60 s"))
+			}
+		}
+		if perr != nil {
+			o.Violation = V("panic", "concurrent registry lookup panicked: %v", perr)
+			return o
+		}
+		for i, name := range c.Names {
+			for g := 1; g < c.Goroutines; g++ {
+				if results[g][i] != results[0][i] {
+					o.Violation = V("registry-duplicate", "name %q resolved to two different objects in concurrent lookups (goroutines 0 and %d, round %d)", name, g, round).
+						With("accounts", fmt.Sprint(c.Accounts))
+					return o
+				}
+			}
+		}
+	}
+	return o
+}
+
+func drawC19Registry(t *rapid.T) C19RegCase {
+	c := C19RegCase{Goroutines: rapid.SampledFrom([]int{2, 4, 8, 16}).Draw(t, "goroutines"), Rounds: rapid.IntRange(5, 40).Draw(t, "rounds"), Accounts: rapid.Bool().Draw(t, "accounts")}
+	n := rapid.IntRange(1, 60).Draw(t, "nNames")
+	for i := 0; i < n; i++ {
+		if c.Accounts {
+			typ := rapid.SampledFrom([]string{"Assets", "Liabilities", "Equity", "Income", "Expenses"}).Draw(t, "type")
+			depth := rapid.IntRange(1, 3).Draw(t, "depth")
+			name := typ
+			for d := 0; d < depth; d++ {
+				name += fmt.Sprintf(":S%d", rapid.IntRange(0, 5).Draw(t, "seg"))
+			}
+			c.Names = append(c.Names, name)
+		} else {
+			c.Names = append(c.Names, fmt.Sprintf("C%d", rapid.IntRange(0, 80).Draw(t, "com")))
+		}
+	}
+	return c
+}
+
+func TestC19Registry(t *testing.T) {
+	runProp(t, "C19", "registry", drawC19Registry, checkC19Registry)
+}
